@@ -143,7 +143,7 @@ func TestVerif_C13_Wrappers(t *testing.T) {
 		switch mut {
 		case "id":
 			if len(id2) > 0 {
-				id2[gen.Int(t, "ipos", 0, len(id2)-1)] ^= 0x40
+				id2[gen.Uniform(t, "ipos", 0, len(id2)-1)] ^= 0x40
 			} else {
 				id2 = []byte{0}
 			}
